@@ -192,7 +192,8 @@ def run(ctx) -> None:
         def thunk(I):
             so = Obj(y2r, {"loaded_file": lift_skeleton(I, doc), "macros_from_terminal_filepath": NONE})
             pats = I.call_func(y2r.find_method("_get_pattern"), [], {}, so, None, None)
-            tree = I.call_func(y2r.find_method("_generate_rule_tree"), [], {"patterns": pats}, so, None, None)
+            from ..models import rule_tree_call
+            tree = rule_tree_call(I, y2r, so, pats)
             return I.call_func(tree.cls.find_method("get_regex"), [], {}, tree, None, None)
         out = set()
         for p in I.explore(thunk):
